@@ -11,10 +11,10 @@ for N in "$@"; do
   git -C /repo worktree add --detach $WT HEAD >/dev/null 2>&1 || { echo "$ID/$N worktree failed"; continue; }
   cd $WT
   if ! git apply $D/demo.diff; then echo "$ID/$N demo.diff does not apply"; cd /; git -C /repo worktree remove --force $WT; continue; fi
-  A=$(CARGO_NET_OFFLINE=true CARGO_TARGET_DIR=/tmp/vs-target cargo test --workspace --no-fail-fast --offline 2>&1)
+  A=$(CARGO_NET_OFFLINE=true CARGO_TARGET_DIR=${VSTARGET:-/tmp/vs-target} cargo test --workspace --no-fail-fast --offline 2>&1)
   AP=$(echo "$A" | grep -E "^test result:" | sed -E 's/.* ([0-9]+) passed.*/\1/' | paste -sd+ | bc); AF=$(echo "$A" | grep -E "^test result:" | sed -E 's/.* ([0-9]+) failed.*/\1/' | paste -sd+ | bc)
   if ! git apply $D/patch.diff; then echo "$ID/$N patch.diff does not apply"; cd /; git -C /repo worktree remove --force $WT; continue; fi
-  B=$(CARGO_NET_OFFLINE=true CARGO_TARGET_DIR=/tmp/vs-target cargo test --workspace --no-fail-fast --offline 2>&1)
+  B=$(CARGO_NET_OFFLINE=true CARGO_TARGET_DIR=${VSTARGET:-/tmp/vs-target} cargo test --workspace --no-fail-fast --offline 2>&1)
   BP=$(echo "$B" | grep -E "^test result:" | sed -E 's/.* ([0-9]+) passed.*/\1/' | paste -sd+ | bc); BF=$(echo "$B" | grep -E "^test result:" | sed -E 's/.* ([0-9]+) failed.*/\1/' | paste -sd+ | bc)
   FAILED=$(echo "$B" | grep -E "^test .* FAILED" | sed -E 's/^test (.*) \.\.\. FAILED/\1/' | tr '\n' ',')
   echo "$ID/$N unchanged+demo: passed=$AP failed=$AF | change+demo: passed=$BP failed=$BF failing=[$FAILED]"
